@@ -627,6 +627,239 @@ B("TB1 order: closure over a key assigned AFTER the local def (late binding woul
         return sorted(projects, key=value_of)
 """))
 
+# =====================================================================================================
+# C12gen: utils.round_cmp, priceability.validate_price_system
+# =====================================================================================================
+PRC = "pabutools/analysis/priceability.py"
+def PR(name, f): R(name, ("PATCH", os.path.join(PATCHES, f), ""))
+def PB(name, f): B(name, ("PATCH", os.path.join(PATCHES, f), ""))
+PR("VP1 validate_price_system: helper total_payment, flipped stable branch (harmless analysis3-4)", "harmless-analysis3-4.diff")
+PR("VP2 validate_price_system: voters list, collected(), len(errors) == 0 (harmless analysis-3)", "harmless-analysis-3.diff")
+PR("VP3 priceability (harmless analysis2-1)", "harmless-analysis2-1.diff")
+PR("VP4 validate_price_system: dict-comprehension collector, supporters list, merged C5/S5 loop (harmless analysis2-2)", "harmless-analysis2-2.diff")
+PR("VP5 utils (harmless analysis2-3)", "harmless-analysis2-3.diff")
+PB("VS1 seeded C12-1a", "seeded-C12-1a.diff")
+PB("VS2 seeded C12-2a", "seeded-C12-2a.diff")
+PB("VS3 seeded C12-3b", "seeded-C12-3b.diff")
+PB("VS4 seeded C12-5b: max outside the sum in S5", "seeded-C12-5b.diff")
+PB("VS5 seeded C12-6b: C3 in aggregate", "seeded-C12-6b.diff")
+PB("VS6 seeded C20-5b: payments overwritten in place (outside the pure fragment)", "seeded-C20-5b.diff")
+R("VR01 round_cmp: temporaries", (UTL, "    return round(a, precision) - round(b, precision)\n",
+  "    rounded_a = round(a, precision)\n    rounded_b = round(b, precision)\n    return rounded_a - rounded_b\n"))
+R("VR02 C0a: negated <=", (PRC, "    if total > instance.budget_limit:\n", "    if not total <= instance.budget_limit:\n"))
+R("VR03 C0b: loop guarded by `and`", (PRC, """    if exhaustive:
+        # equivalent of `instance.is_exhaustive(W)`
+        for c in NW:
+            if total + c.cost <= instance.budget_limit:
+""", """    if True:
+        # equivalent of `instance.is_exhaustive(W)`
+        for c in NW:
+            if exhaustive and total + c.cost <= instance.budget_limit:
+"""))
+R("VR04 C1: payment read once", (PRC, """        for c in C:
+            if c not in i and pf[idx][c] != 0:
+""", """        for c in C:
+            paid = pf[idx][c]
+            if c not in i and paid != 0:
+"""))
+R("VR05 C2: comparison reversed", (PRC, "        if round_cmp(spent[idx], b, CHECK_ROUND_PRECISION) > 0:\n",
+  "        if 0 < round_cmp(spent[idx], b, CHECK_ROUND_PRECISION):\n"))
+R("VR06 C3: accumulator loop for the collected amount", (PRC, """    for c in W:
+        s = sum(pf[idx][c] for idx, _ in enumerate(N))
+""", """    for c in W:
+        s = 0
+        for idx, _ in enumerate(N):
+            s += pf[idx][c]
+"""))
+R("VR07 NW: loop with append", (PRC, "    NW = [c for c in C if c not in W]\n",
+  "    NW = []\n    for c in C:\n        if c not in W:\n            NW.append(c)\n"))
+R("VR08 leftover computed from the payments directly", (PRC, "    leftover = [(b - spent[idx]) for idx, _ in enumerate(N)]\n",
+  "    leftover = [b - sum(pf[idx][c] for c in C) for idx, _ in enumerate(N)]\n"))
+R("VR09 S5: cost chosen by an if statement", (PRC, "            cost = c.cost if relaxation is None else relaxation.get_relaxed_cost(c)\n",
+  "            if relaxation is None:\n                cost = c.cost\n            else:\n                cost = relaxation.get_relaxed_cost(c)\n"))
+R("VR10 C5: filter inside the summand", (PRC, "            s = sum(leftover[idx] for idx, i in enumerate(N) if c in i)\n",
+  "            s = sum((leftover[idx] if c in i else 0) for idx, i in enumerate(N))\n"))
+R("VR11 result: explicit boolean", (PRC, "    return not errors\n", "    if errors:\n        return False\n    return True\n"))
+R("VR12 S5: max with swapped arguments", (PRC, "                max(max_payment[idx], leftover[idx])", "                max(leftover[idx], max_payment[idx])"))
+B("VB01 C0a: >= for >", (PRC, "    if total > instance.budget_limit:\n", "    if total >= instance.budget_limit:\n"))
+B("VB02 C0b: < for <=", (PRC, "            if total + c.cost <= instance.budget_limit:\n", "            if total + c.cost < instance.budget_limit:\n"))
+B("VB03 C1: unapproved payments accepted", (PRC, "            if c not in i and pf[idx][c] != 0:\n", "            if c not in i and pf[idx][c] < 0:\n"))
+B("VB04 C1: negative payments accepted", (PRC, "            if round_cmp(pf[idx][c], 0, CHECK_ROUND_PRECISION) < 0:\n", "            if round_cmp(pf[idx][c], 0, CHECK_ROUND_PRECISION) > 0:\n"))
+B("VB05 C2: compared with the budget limit", (PRC, "        if round_cmp(spent[idx], b, CHECK_ROUND_PRECISION) > 0:\n", "        if round_cmp(spent[idx], instance.budget_limit, CHECK_ROUND_PRECISION) > 0:\n"))
+B("VB06 C3: > for !=", (PRC, "        if round_cmp(s, c.cost, CHECK_ROUND_PRECISION) != 0:\n", "        if round_cmp(s, c.cost, CHECK_ROUND_PRECISION) > 0:\n"))
+B("VB07 C4 over the selected projects", (PRC, """    for c in NW:
+        s = sum(pf[idx][c] for idx, _ in enumerate(N))
+        if round_cmp(s, 0, CHECK_ROUND_PRECISION) != 0:""", """    for c in W:
+        s = sum(pf[idx][c] for idx, _ in enumerate(N))
+        if round_cmp(s, 0, CHECK_ROUND_PRECISION) != 0:"""))
+B("VB08 C5: all voters instead of the supporters", (PRC, "            s = sum(leftover[idx] for idx, i in enumerate(N) if c in i)\n", "            s = sum(leftover[idx] for idx, i in enumerate(N))\n"))
+B("VB09 S5: min for max", (PRC, "                max(max_payment[idx], leftover[idx])", "                min(max_payment[idx], leftover[idx])"))
+B("VB10 S5: relaxation ignored", (PRC, "            cost = c.cost if relaxation is None else relaxation.get_relaxed_cost(c)\n", "            cost = c.cost\n"))
+B("VB11 round_cmp: precision dropped", (UTL, "    return round(a, precision) - round(b, precision)\n", "    return round(a, precision) - b\n"))
+B("VB12 CHECK_ROUND_PRECISION = 3", (PRC, "CHECK_ROUND_PRECISION = 2\n", "CHECK_ROUND_PRECISION = 3\n"))
+B("VB13 stable test inverted", (PRC, "    if not stable:\n        for c in NW:\n            s = sum(leftover", "    if stable:\n        for c in NW:\n            s = sum(leftover"))
+B("VB14 leftover: spent - b", (PRC, "    leftover = [(b - spent[idx]) for idx, _ in enumerate(N)]\n", "    leftover = [(spent[idx] - b) for idx, _ in enumerate(N)]\n"))
+
+# =====================================================================================================
+# C14gen: cohesiveness.py, justifiedrepresentation.py
+# =====================================================================================================
+COH = "pabutools/analysis/cohesiveness.py"
+JRP = "pabutools/analysis/justifiedrepresentation.py"
+PR("JP1 cohesiveness (harmless analysis-1)", "harmless-analysis-1.diff")
+PR("JP2 justifiedrepresentation (harmless analysis-2)", "harmless-analysis-2.diff")
+PR("JP3 justifiedrepresentation: surplus helper extracted (harmless analysis3-1)", "harmless-analysis3-1.diff")
+PR("JP4 cohesiveness: all()/any() generator expressions (harmless analysis3-2)", "harmless-analysis3-2.diff")
+for _i, _d in enumerate(("C14-1a", "C14-1b", "C14-2a", "C14-2b", "C14-3a", "C14-3b", "C14-4a", "C14-4b", "C14-5a", "C14-5b",
+                         "C14-6a", "C14-6b", "C20-5a")):
+    PB("JS%02d seeded %s" % (_i + 1, _d), "seeded-%s.diff" % _d)
+COHLOOP = """    for ballot in ballots:
+        for p in projects:
+            if p not in ballot:
+                return False
+    return True
+"""
+R("JR01 is_large_enough: sides swapped", (COH, "    return projects_cost * num_voters <= group_size * budget_limit\n",
+  "    return group_size * budget_limit >= num_voters * projects_cost\n"))
+R("JR02 is_cohesive_approval: all(all(..))", (COH, COHLOOP,
+  "    return all(all(p in ballot for p in projects) for ballot in ballots)\n"))
+R("JR03 is_cohesive_approval: guards merged", (COH, """    if len(ballots) == 0 or len(projects) == 0:
+        return False
+    for ballot in ballots:
+        for p in projects:
+            if p not in ballot:
+""", """    if not ballots or not projects:
+        return False
+    for ballot in ballots:
+        for p in projects:
+            if p not in ballot:
+"""))
+R("JR05 is_strong_EJR_approval: all(..) instead of flag and break", (JRP, """        all_agents_sat = True
+        for ballot in group:
+            sat = sat_class(instance, profile, ballot)
+            if sat.sat(budget_allocation) < sat.sat(project_set):
+                all_agents_sat = False
+                break
+        if not all_agents_sat:
+            return False
+    return True
+
+
+def is_EJR_approval(""", """        if not all(
+            sat_class(instance, profile, ballot).sat(budget_allocation)
+            >= sat_class(instance, profile, ballot).sat(project_set)
+            for ballot in group
+        ):
+            return False
+    return True
+
+
+def is_EJR_approval("""))
+R("JR06 is_EJR_any_approval: named local function", (JRP, """    return is_EJR_approval(
+        instance,
+        profile,
+        sat_class,
+        budget_allocation,
+        up_to_func=lambda x: min(x, default=0),
+    )
+""", """    def smallest(values):
+        return min(values, default=0)
+
+    return is_EJR_approval(instance, profile, sat_class, budget_allocation, up_to_func=smallest)
+"""))
+R("JR07 is_PJR_approval: comparison reversed", (JRP, "        if group_sat < threshold:\n            return False\n    return True\n\n\ndef is_PJR_any_approval",
+  "        if threshold > group_sat:\n            return False\n    return True\n\n\ndef is_PJR_any_approval"))
+R("JR08 is_PJR_cardinal: threshold as an accumulator loop", (JRP, """        threshold = sum(min(b[p] for b in group) for p in project_set)
+        group_sat = sum(max(b[p] for b in group) for p in budget_allocation)
+""", """        threshold = 0
+        for p in project_set:
+            threshold += min(b[p] for b in group)
+        group_sat = sum(max(b[p] for b in group) for p in budget_allocation)
+"""))
+R("JR09 is_cohesive_cardinal: not (>=)", (COH, "            if ballot[p] < alpha[p]:\n", "            if not ballot[p] >= alpha[p]:\n"))
+R("JR10 is_in_core: surplus in a conditional expression", (JRP, """                        surplus = 0
+                        if up_to_func is not None:
+                            surplus = up_to_func(
+                                sat.sat_project(p)
+                                for p in project_set
+                                if p not in budget_allocation
+                            )
+                        if sat.sat(budget_allocation) + surplus >= sat.sat(project_set):""", """                        surplus = 0 if up_to_func is None else up_to_func(
+                            sat.sat_project(p) for p in project_set if p not in budget_allocation
+                        )
+                        if sat.sat(project_set) <= sat.sat(budget_allocation) + surplus:"""))
+B("JB01 is_large_enough: < for <=", (COH, "    return projects_cost * num_voters <= group_size * budget_limit\n", "    return projects_cost * num_voters < group_size * budget_limit\n"))
+B("JB02 is_cohesive_approval: any ballot suffices", (COH, COHLOOP, "    return any(all(p in ballot for p in projects) for ballot in ballots)\n"))
+B("JB03 is_cohesive_approval: empty project set accepted", (COH, """    if len(ballots) == 0 or len(projects) == 0:
+        return False
+    for ballot in ballots:
+        for p in projects:
+            if p not in ballot:
+""", """    if len(ballots) == 0:
+        return False
+    for ballot in ballots:
+        for p in projects:
+            if p not in ballot:
+"""))
+B("JB04 cohesive_groups: alpha_min is the maximum", (COH, "alpha_min = {p: min(b[p] for b in group) for p in project_set}", "alpha_min = {p: max(b[p] for b in group) for p in project_set}"))
+B("JB05 is_strong_EJR_approval: <= for <", (JRP, "            if sat.sat(budget_allocation) < sat.sat(project_set):\n                all_agents_sat = False", "            if sat.sat(budget_allocation) <= sat.sat(project_set):\n                all_agents_sat = False"))
+B("JB06 is_EJR_any_approval: max for min", (JRP, """        budget_allocation,
+        up_to_func=lambda x: min(x, default=0),
+    )
+
+
+def is_EJR_one_approval(""", """        budget_allocation,
+        up_to_func=lambda x: max(x, default=0),
+    )
+
+
+def is_EJR_one_approval("""))
+B("JB07 is_PJR_approval: projects of the whole allocation", (JRP, "        group_approved = {p for p in budget_allocation if any(p in b for b in group)}", "        group_approved = {p for p in budget_allocation}"))
+B("JB08 is_EJR_cardinal: sum of maxima as threshold", (JRP, """        one_agent_sat = False
+        threshold = sum(min(b[p] for b in group) for p in project_set)""", """        one_agent_sat = False
+        threshold = sum(max(b[p] for b in group) for p in project_set)"""))
+B("JB09 is_PJR_cardinal: surplus over all of project_set", (JRP, """                max(b[p] for b in group)
+                for p in project_set
+                if p not in budget_allocation""", """                max(b[p] for b in group)
+                for p in project_set"""))
+B("JB10 is_in_core: > for >=", (JRP, "                        if sat.sat(budget_allocation) + surplus >= sat.sat(project_set):\n                            all_better_alone = False", "                        if sat.sat(budget_allocation) + surplus > sat.sat(project_set):\n                            all_better_alone = False"))
+B("JB11 is_EJR_approval: every agent must be satisfied", (JRP, """        one_agent_sat = False
+        for ballot in group:
+            sat = sat_class(instance, profile, ballot)
+            surplus = 0
+            if up_to_func is not None:
+                surplus = up_to_func(
+                    sat.sat_project(p)
+                    for p in project_set
+                    if p not in budget_allocation
+                )
+            if sat.sat(budget_allocation) + surplus >= sat.sat(project_set):
+                one_agent_sat = True
+                break
+        if not one_agent_sat:
+            return False
+    return True
+
+
+def is_EJR_any_approval(""", """        one_agent_sat = True
+        for ballot in group:
+            sat = sat_class(instance, profile, ballot)
+            surplus = 0
+            if up_to_func is not None:
+                surplus = up_to_func(
+                    sat.sat_project(p)
+                    for p in project_set
+                    if p not in budget_allocation
+                )
+            if sat.sat(budget_allocation) + surplus < sat.sat(project_set):
+                one_agent_sat = False
+                break
+        if not one_agent_sat:
+            return False
+    return True
+
+
+def is_EJR_any_approval("""))
+
 
 def sh(cmd, **kw):
     return subprocess.run(cmd, shell=True, capture_output=True, text=True, **kw)
@@ -657,7 +890,7 @@ def main():
             res.append((name, kind, "PATTERN"))
             continue
         t0 = time.time()
-        props = "C15gen" if name.startswith(("I", "PI")) else "C18gen" if name.startswith("S") else \
+        props = "C14gen" if name.startswith("J") else "C12gen" if name.startswith("V") else "C15gen" if name.startswith(("I", "PI")) else "C18gen" if name.startswith("S") else \
             "TieGen" if name.startswith(("T", "PT")) and not name.startswith("T0") and not name.startswith("T1") else "C10gen TieGen"
         r = sh("%s %s %s %s" % (TRY, WT, COQ, props))
         checks = r.returncode == 0
